@@ -432,8 +432,10 @@ class C23(Property):
         for name, content in ((longname, b"long-named\n" * 50), ("s1", b"one"), ("s2", b"two" * 300), ("d/inner", b"in"), ("é " + "z" * 110, b"second long")):
             with open(os.path.join(src, name), "wb") as f:
                 f.write(content)
-        orders = [["src", "src/" + longname, "src/s1", "src/s2", "src/d", "src/d/inner", "src/é " + "z" * 110],
-                  ["src", "src/s1", "src/" + longname, "src/d", "src/d/inner", "src/é " + "z" * 110, "src/s2"]]
+        # a second name (hard link) for s2: archived as a link member after the file itself
+        os.link(os.path.join(src, "s2"), os.path.join(src, "h2"))
+        orders = [["src", "src/" + longname, "src/s1", "src/s2", "src/h2", "src/d", "src/d/inner", "src/é " + "z" * 110],
+                  ["src", "src/s1", "src/" + longname, "src/d", "src/d/inner", "src/é " + "z" * 110, "src/s2", "src/h2"]]
         want = snapshot(src)
         for oi, members in enumerate(orders):
             arch = {"tarfile-pax": py_tar_members(parent, members, tarfile.PAX_FORMAT), "gnutar-posix": gnu_tar_members(parent, members, "posix"),
